@@ -659,7 +659,13 @@ LOOKALIKE_WORDS = ['1e3', '2E5', '1.5e3', '-2e-3', '12e4567', 'NaN', 'nan', 'Inf
                    '0o17', '017', '0b101', '1_000', '+1', '.5', '5.', '0x1F', '1:30:00', '190:20:30.15', 'yes', 'No', 'ON', 'off',
                    'y', 'n', '~', 'null', 'Null', 'NULL', 'TRUE', 'false', '=', '<<', '2001-12-14', '2001-12-14t21:59:43.10-05:00',
                    '1e+3', '1.0', '-0', '0.', '1e', 'e5', '1,000', '[1]', '{a: 1}', '"q"', "'s'", '!!str x', '&a b', '*a',
-                   '? k', ': v', '- i', '@at', '`bt', '%TAG', '---', '...', '# not a comment', 'a: b', 'a #b', 'a:', ' ', '']
+                   '? k', ': v', '- i', '@at', '`bt', '%TAG', '---', '...', '# not a comment', 'a: b', 'a #b', 'a:', ' ', '',
+                   # fragments of JSON / YAML syntax inside a string: a text-level pre- or post-pass over the document
+                   # (a regex that "repairs" trailing commas, strips comments, normalises white space) rewrites them
+                   ',]', ', }', '[1, 2,]', '{"a": 1,}', '\\d{2,}', 'a{1, }', 'f(x)[1:,]', '/* c */', '// c', 'a //b', '\\', '\\n',
+                   '\\u00e9', 'a\tb', ' lead', 'trail ', 'two  spaces', 'line1\nline2', 'ends\n', '\n', 'a\r\nb', '"', "'", "it's",
+                   '""', '{', '}', '[', ']', ',', ':', '- ', '|', '>', '>-', '|+', 'NaN,', 'null,', 'true]', '"k": "v"', "{'a': 'b'}",
+                   '<!-- x -->', '${HOME}', '%(x)s', '{0}', '{{x}}', '\x00'.replace('\x00', 'nul?')]
 
 
 NUMLIKE_WORDS = ['1e3', '2E5', '1.5e3', '-2e-3', '12e4567', 'NaN', 'Infinity', '-Infinity', '1e+3', '1E400', '0e0', '1e-7',
